@@ -1,21 +1,25 @@
 (** * C07: == and != implement ECMAScript abstract equality on JSON values.
-    Statements only; proofs are in Proofs/Compare.v.  The hypothesis is the scanner lemma of
-    Proofs/Scan.v (str_to_number recognises exactly the StringNumericLiteral grammar). *)
+    Statements only; proofs are in Proofs/Compare.v.  The scanner lemma is Proofs/Scan.v:
+    str_to_number recognises exactly the StringNumericLiteral grammar (str_to_number_spec). *)
 From Coq Require Import List Bool.
-From JL Require Import Base.Json Base.Dec2Flt Base.Monad Model.JsOp Model.Ops Spec.Specs Proofs.Compare.
+From JL Require Import Base.Json Base.Dec2Flt Base.Monad Model.JsOp Model.Ops Spec.Specs Proofs.Compare Proofs.Scan.
 From Coq Require Import String NArith ZArith.
 Local Open Scope string_scope.
 Import ListNotations.
 
-Theorem C07_eq_partial :
-  (forall s, str_to_number s = es_str_to_number s) -> forall a b, abstract_eq a b = es_eq a b.
-Proof. exact abstract_eq_spec. Qed.
-Print Assumptions C07_eq_partial.
+Theorem C07_eq : forall a b, abstract_eq a b = es_eq a b.
+Proof. exact (abstract_eq_spec str_to_number_spec). Qed.
+Print Assumptions C07_eq.
 
-Theorem C07_ne_partial :
-  (forall s, str_to_number s = es_str_to_number s) -> forall a b, abstract_ne a b = negb (es_eq a b).
-Proof. exact abstract_ne_spec. Qed.
-Print Assumptions C07_ne_partial.
+Theorem C07_ne : forall a b, abstract_ne a b = negb (es_eq a b).
+Proof. exact (abstract_ne_spec str_to_number_spec). Qed.
+Print Assumptions C07_ne.
+
+(** JavaScript's string-to-number rules: the scanner of js_op.rs is the StringNumericLiteral
+    recogniser of the specification, for every string *)
+Theorem C07_string_to_number : forall s, str_to_number s = es_str_to_number s.
+Proof. exact str_to_number_spec. Qed.
+Print Assumptions C07_string_to_number.
 
 (** the specification relation is symmetric (no hypothesis) *)
 Theorem C07_symmetric : forall a b, es_eq a b = es_eq b a.
